@@ -5,11 +5,13 @@ CONSTANTS
   EarlyTokPut = FALSE
   UnguardedPaths = FALSE
   SharedCurrent = FALSE
+  BlindInsert = FALSE
 INVARIANTS
   NoConflictingAccess
   TokensIntact
   RelativeNameOwn
   SerialEquivalent
+  RegistrationLasts
   SingleOwner
   Emit
 CHECK_DEADLOCK FALSE
